@@ -253,8 +253,10 @@ def facts() -> typing.Dict[str, bool]:
     _SEQS.clear()
     _SEQS['subspan_ptr'] = sub_ptr
     _SEQS['setzeros'] = seqs.setzeros_accesses(csup)
+    cser = strip_comments(gen.read_repo('src/nunavut/lang/cpp/templates/serialization.j2'))
+    cpp_ev, f['cpp_ser_stores_checked'] = seqs.cpp_ser_facts(macro, cser, csup)
     _SEQS.update({'vla': seqs.coq_vla(seqs.vla_paths(macro(cdes, '_deserialize_variable_length_array').split('%}', 1)[1])), 'union': seqs.union_seqs(uni),
-                  'cev': seqs.c_event_seqs(macro, ser, des)})
+                  'cev': dict(seqs.c_event_seqs(macro, ser, des), **cpp_ev)})
     return f
 
 
@@ -262,12 +264,41 @@ _SEQS: typing.Dict[str, typing.Any] = {}
 STATE = ['c_len_check_is_dsdl_capacity', 'c_len_check_storage', 'c_ser_guarded', 'c_des_ptr_clamped', 'cpp_subspan_clamped']   # either value is a recognised shape
 ORDER = ['c_ser_up_front_first', 'c_ser_check_guard_is_override', 'c_ser_tag_chain_closed', 'c_ser_len_check_first', 'c_des_len_check_first',
          'c_len_check_is_dsdl_capacity', 'c_len_check_storage', 'c_ser_guarded', 'c_des_ptr_clamped', 'c_des_remaining_live', 'c_des_header_check_first', 'c_des_tag_chain_closed', 'c_des_bool_guarded', 'c_des_byte_guarded',
-         'c_getbits_zero_from_floor', 'cpp_subspan_clamped', 'cpp_vla_clear_first', 'union_destroy_unfiltered', 'union_emplace_destroy_first']
+         'c_getbits_zero_from_floor', 'cpp_ser_stores_checked', 'cpp_subspan_clamped', 'cpp_vla_clear_first', 'union_destroy_unfiltered', 'union_emplace_destroy_first']
+
+
+WIDTHS = {'uint8_t': 8, 'uint16_t': 16, 'uint32_t': 32, 'uint64_t': 64, 'unsigned char': 8}
+
+
+def named_widths() -> typing.Dict[str, int]:
+    """bit widths of the cursor / length types the templates are rendered with (lang/properties.yaml named_types), for c and cpp;
+    size_t is the target's (the harness builds for this host: LP64)"""
+    import struct
+    text = gen.read_repo('src/nunavut/lang/properties.yaml')
+    out = {}
+    for lang in ('c', 'cpp'):
+        m = re.search(r'^nunavut\.lang\.%s:\n(.*?)(?=^nunavut\.lang\.|\Z)' % lang, text, flags=re.S | re.M)
+        if not m:
+            raise Closed('properties.yaml: section nunavut.lang.%s not found' % lang)
+        for key in ('unsigned_length', 'unsigned_bit_length'):
+            mm = re.findall(r"^\s+'%s':\s*'([^']*)'\s*$" % key, m.group(1), flags=re.M)
+            if len(mm) != 1:
+                raise Closed('properties.yaml: %s.%s not found' % (lang, key))
+            name = mm[0].replace('std::', '')
+            if name == 'size_t':
+                bits = struct.calcsize('N') * 8
+            elif name in WIDTHS:
+                bits = WIDTHS[name]
+            else:
+                raise Closed('properties.yaml: %s.%s = %r: width unknown' % (lang, key, mm[0]))
+            out['%s_%s' % (lang, key)] = bits
+    return out
 
 
 def gen_c04() -> typing.Tuple[bool, str]:
     try:
         f = facts()
+        widths = named_widths()
         missing = [k for k in ORDER if k not in f]
         if missing:
             raise Closed('facts not computed: %s' % missing)
@@ -278,7 +309,10 @@ def gen_c04() -> typing.Tuple[bool, str]:
              '(* structural facts of the (de)serialization templates read by tools/translators/gen_c04.py *)\n']
     for k in ORDER:
         lines.append('Definition tpl_%s : bool := %s.\n' % (k, 'true' if f[k] else 'false'))
-    lines.append('\nDefinition tpl_order_facts : bool :=\n  %s.\n' % ' && '.join('tpl_' + k for k in ORDER if not k.startswith(('cpp_', 'union_')) and k not in STATE))
+    lines.append('\nDefinition tpl_order_facts : bool :=\n  %s.\n' % ' && '.join('tpl_' + k for k in ORDER if (not k.startswith(('cpp_', 'union_')) or k == 'cpp_ser_stores_checked') and k not in STATE))
+    lines.append('\n(* bit widths of the named cursor / length types (lang/properties.yaml named_types) *)\n')
+    for k, v in sorted(widths.items()):
+        lines.append('Definition tpl_width_%s : nat := %d.\n' % (k, v))
     lines.append('\n(* statement sequences, in textual order; interpreted / decided on the Coq side *)\n')
     lines.append('Definition tpl_cpp_vla_paths : list (list vstmt) :=\n  %s.\n' % _SEQS['vla'])
     lines.append('Definition tpl_cpp_subspan_ptr : sexp := %s.\n' % _SEQS['subspan_ptr'])
